@@ -15,7 +15,6 @@ package main
 import (
 	"bytes"
 	"context"
-	"encoding/binary"
 	"encoding/hex"
 	"encoding/json"
 	"fmt"
@@ -31,7 +30,6 @@ import (
 	"sync/atomic"
 	"time"
 
-	"github.com/apache/arrow-go/v18/arrow"
 	"github.com/apache/arrow-go/v18/arrow/array"
 	"github.com/apache/arrow-go/v18/arrow/memory"
 	"github.com/apache/arrow-go/v18/parquet/file"
@@ -750,8 +748,6 @@ func canonFile(path string, data []byte) batchC {
 	}
 	return bc
 }
-
-var _ = arrow.PrimitiveTypes
 
 var digitsRe = regexp.MustCompile(`[0-9]+`)
 
@@ -1748,7 +1744,7 @@ func (m *minimiser) kind(b []byte) string {
 		return k
 	}
 	atomic.AddInt64(m.evals, 1)
-	k = m.w.eval(b, strings.HasPrefix("", "stored")).kind
+	k = m.w.eval(b, false).kind
 	m.evalMu.Lock()
 	m.kindOf[string(b)] = k
 	m.evalMu.Unlock()
@@ -1981,9 +1977,7 @@ func main() {
 					return
 				}
 				b := gen.bases[order[oi]]
-				t00 := time.Now()
 				v := w.eval(b.body, true)
-				localMut["ns:tree:"+b.fam[:2]] += int64(time.Since(t00))
 				atomic.AddInt64(&evals, 1)
 				atomic.AddInt64(&treeEvals, 1)
 				if v.typedHit {
@@ -2006,8 +2000,6 @@ func main() {
 				if v.kind == "" && len(b.body) <= maxMutLen && mutEligible(b, quick) {
 					atomic.AddInt64(&mutBases, 1)
 					mutations(b.body, overEligible(b, quick), func(kind string, mb []byte) {
-						t0 := time.Now()
-						defer func() { localMut["ns:"+kind+":"+b.fam[:2]] += int64(time.Since(t0)) }()
 						if kind == "oversize-header" {
 							overMu.Lock()
 							defer overMu.Unlock()
@@ -2030,19 +2022,7 @@ func main() {
 	}
 	wg.Wait()
 	if os.Getenv("VERIF_DEBUG") != "" {
-		var ks []string
-		for k := range mutKinds {
-			ks = append(ks, k)
-		}
-		sort.Strings(ks)
-		for _, k := range ks {
-			if strings.HasPrefix(k, "ns:") {
-				fmt.Printf("  %-40s %8.2fs cpu\n", k, float64(mutKinds[k])/1e9)
-			} else {
-				fmt.Printf("  %-40s %d\n", k, mutKinds[k])
-			}
-		}
-		fmt.Printf("  explore wall %.1fs, raw failures %d, mutation bases %d\n", time.Since(tStart).Seconds(), len(fails), mutBases)
+		fmt.Printf("  explored in %.1fs: %d raw failures, %d mutation bases\n", time.Since(tStart).Seconds(), len(fails), mutBases)
 		byHow := map[string]int{}
 		for _, f := range fails {
 			byHow[f.how+" "+f.kind]++
@@ -2054,11 +2034,6 @@ func main() {
 		sort.Strings(hs)
 		for _, h := range hs {
 			fmt.Println("   ", h)
-		}
-	}
-	for k := range mutKinds {
-		if strings.HasPrefix(k, "ns:") {
-			delete(mutKinds, k)
 		}
 	}
 
@@ -2275,4 +2250,3 @@ func max3(a, b, c int) int {
 
 var overMu sync.Mutex
 
-var _ = binary.BigEndian
